@@ -16,7 +16,8 @@ DEMO=$(grep -oE 'precis-(core|profiles|tools)/tests/[A-Za-z0-9_]*demo[A-Za-z0-9_
 [ -n "$DEMO" ] || DEMO=precis-profiles/tests/demo.rs
 CRATE=$(echo "$DEMO" | cut -d/ -f1); TNAME=$(basename "$DEMO" .rs)
 export CARGO_NET_OFFLINE=true
-run_demo() { (cd "$WT" && timeout 900 cargo test --offline -p "$CRATE" --test "$TNAME" >"$OUT/demo.log" 2>&1); }
+REL=""; grep -qE 'cargo test (.* )?--release' "$M/notes.md" && REL="--release"   # demo only meaningful in the release profile
+run_demo() { (cd "$WT" && timeout 1200 cargo test $REL --offline -p "$CRATE" --test "$TNAME" >"$OUT/demo.log" 2>&1); }
 mkdir -p "$(dirname "$WT/$DEMO")"
 [ -e "$WT/$DEMO" ] && { echo "RESULT $(basename $(dirname $M))/$(basename $M) demo path $DEMO already exists in the tree"; exit 2; }
 cp "$M/demo.rs" "$WT/$DEMO"
